@@ -130,7 +130,9 @@ impl<R: Rng> SimulatedAnnealing<R> {
             self.parameters.num_fixed_colors,
         );
 
-        if self.parameters.num_fixed_colors == self.colors.len() {
+        // Nothing to optimize if all colors are fixed or if there is no pair of colors at all
+        // (with a single color there is no closest pair to pick a candidate from).
+        if self.parameters.num_fixed_colors == self.colors.len() || self.colors.len() < 2 {
             return result;
         }
 
